@@ -183,8 +183,49 @@ impl Io {
     }
 }
 
+thread_local! {
+    /// (message, location) of the last panic on this thread, recorded by `install_panic_probe`
+    static LAST_PANIC: RefCell<Option<(String, String)>> = const { RefCell::new(None) };
+}
+
+/// Chain a panic hook in front of the runner's: it records message and location per thread, so
+/// that a panic raised *by the code under test* while a compiled dataflow runs can be told apart
+/// from a harness panic. The DFIR-generated code is macro-expanded into the generated crates, so
+/// its panics (`singleton() received more than one item`, `Option::unwrap()` on a drained
+/// singleton reference, ...) carry a location inside `e3g_*/src/p*.rs`.
+fn install_panic_probe() {
+    static ONCE: std::sync::Once = std::sync::Once::new();
+    ONCE.call_once(|| {
+        let prev = std::panic::take_hook();
+        std::panic::set_hook(Box::new(move |info| {
+            let msg = if let Some(s) = info.payload().downcast_ref::<&str>() {
+                s.to_string()
+            } else if let Some(s) = info.payload().downcast_ref::<String>() {
+                s.clone()
+            } else {
+                "<non-string panic>".to_string()
+            };
+            let loc = info.location().map(|l| format!("{}:{}", l.file(), l.line())).unwrap_or_default();
+            LAST_PANIC.with(|p| *p.borrow_mut() = Some((msg, loc)));
+            prev(info);
+        }));
+    });
+}
+
+/// Is a panic location inside the code under test (DFIR runtime, its dependencies, or the
+/// DFIR-generated code expanded into a generated program module)?
+fn sut_location(loc: &str) -> bool {
+    let gen_module = loc.rsplit('/').next().is_some_and(|f| {
+        let f = f.split(':').next().unwrap_or("");
+        f.starts_with('p') && f.ends_with(".rs") && f[1..f.len() - 3].chars().all(|c| c.is_ascii_digit()) && f.len() > 4
+    }) && loc.contains("e3g_");
+    gen_module || loc.starts_with("/repo/") || loc.contains(".cargo/registry") || loc.starts_with("/rustc/")
+}
+
 #[derive(Clone, Debug, Default)]
 pub struct Observed {
+    /// the compiled program panicked inside the code under test: (message, location)
+    pub panic: Option<(String, String)>,
     pub log: RunLog,
     /// `df.current_tick()` after each step
     pub tick_after: Vec<u64>,
@@ -195,6 +236,7 @@ pub struct Observed {
 /// Drive a compiled dataflow according to `plan`. `ticks_per_step` is the interpreter's
 /// prediction, used only to arm the watchdog.
 pub fn drive<T: TickClosure>(df: &mut Dfir<T>, io: &mut Io, plan: &Plan, ticks_per_step: &[usize]) -> Observed {
+    install_panic_probe();
     let mut obs = Observed::default();
     let mut expect_tick = 0u64;
     for (si, step) in plan.steps.iter().enumerate() {
@@ -219,8 +261,16 @@ pub fn drive<T: TickClosure>(df: &mut Dfir<T>, io: &mut Io, plan: &Plan, ticks_p
                 obs.tick_after.push(df.current_tick().0);
                 break;
             }
-            // a panic from /repo code or from the harness: let the runner classify it
-            resume_unwind(p);
+            let last = LAST_PANIC.with(|l| l.borrow_mut().take());
+            match last {
+                Some((msg, loc)) if sut_location(&loc) => {
+                    obs.panic = Some((msg, loc));
+                    obs.tick_after.push(df.current_tick().0);
+                    break;
+                }
+                // a harness panic: let the runner report it as a harness error
+                _ => resume_unwind(p),
+            }
         }
         obs.tick_after.push(df.current_tick().0);
     }
@@ -289,6 +339,11 @@ fn multiset(v: &[It]) -> BTreeMap<It, usize> {
 
 /// Compare one variant's observation with the prediction. Returns `(class suffix, detail)`.
 pub fn compare(prog: &Program, plan: &Plan, pred: &Predicted, obs: &Observed) -> Option<(String, String)> {
+    if let Some((msg, loc)) = &obs.panic {
+        let file = loc.rsplit('/').next().unwrap_or("").split(':').next().unwrap_or("");
+        let wher = if loc.contains("e3g_") { "generated_code".to_string() } else { file.to_string() };
+        return Some((format!("panic/{wher}"), format!("the compiled program panicked at {loc}: {msg}")));
+    }
     // tick counter: after each step the counter must equal the number of predicted ticks so far
     let mut t = 0u64;
     for (si, ticks) in pred.steps.iter().enumerate() {
